@@ -76,7 +76,8 @@ fn probe(k: u8) -> Vec<i128> {
 }
 
 fn signature(mode: RoundingMode) -> Vec<i128> {
-    PROBES.iter().map(|&v| fpdec_core::i128_div_rounded(v, 10, Some(mode))).collect()
+    // the reference model's rounding (spec::round_div), not the library's
+    PROBES.iter().map(|&v| round_div(&crate::big::I512::from_i128(v), &crate::big::U512::from_u128(10), mode).value.to_i128().unwrap()).collect()
 }
 
 /// Decode a probe vector into the mode that produced it (255 if none).
